@@ -56,6 +56,7 @@ type spec struct {
 	Yield  bool     `json:"yield,omitempty"`
 	Peer   string   `json:"peer,omitempty"`  // endpoints: held (hand-made peers keeping their SP header back) | sock (mangos sockets)
 	Conns  int      `json:"conns,omitempty"` // endpoints: connections over the Socks endpoints
+	RT     string   `json:"rt,omitempty"`    // reconnect time of the dialling side: "" (a few ms) | sock0 (zero, set on the socket before dialling) | dialer0 (zero, given in the dialer's options)
 }
 
 func TestC13(t *testing.T) {
@@ -112,6 +113,31 @@ func TestC13(t *testing.T) {
 		}
 		cases = append(cases, mon.CaseSpec{Name: "endpoints/sock/" + sp.Tran + "/" + sp.Sides[0], Spec: sp})
 	}
+	// RECONNECT-TIME zero (a legal value) on the dialling side, set on the socket or in the dialer's options:
+	// the same scripts, every lost pipe (peer drop, hook close, Pipe.Close, rejected connection) must still be
+	// followed by a redial (appended last: the indices of the older cases stay put)
+	rts := []string{"sock0", "dialer0"}
+	for i := 0; i < r.Pick(96, 6000); i++ {
+		n := 1 + rnd.Intn(3)
+		sp := spec{Kind: "vt", Socks: n, Steps: 3 + rnd.Intn(6), Yield: rnd.Intn(2) == 0, RT: rts[i%2]}
+		for j := 0; j < n; j++ {
+			sp.Protos = append(sp.Protos, protoNames[rnd.Intn(len(protoNames))])
+			sp.Sides = append(sp.Sides, []string{"listen", "dial"}[rnd.Intn(2)])
+		}
+		sp.Protos[0], sp.Sides[0] = protoNames[(i/2)%len(protoNames)], "dial"
+		cases = append(cases, mon.CaseSpec{Name: "vt/reconnect-time-0", Spec: sp})
+	}
+	for i := 0; i < r.Pick(48, 2400); i++ {
+		sp := spec{Kind: "real", Tran: reals[i%len(reals)], Protos: []string{[]string{"bus", "star", "rep", "pull"}[rnd.Intn(4)]}, Steps: 3 + rnd.Intn(4), Yield: rnd.Intn(2) == 0, RT: rts[(i/len(reals))%2]}
+		cases = append(cases, mon.CaseSpec{Name: "real/" + sp.Tran + "/reconnect-time-0", Spec: sp})
+	}
+	for i := 0; i < r.Pick(24, 1200); i++ {
+		k := 2 + rnd.Intn(3)
+		sp := spec{Kind: "endpoints", Peer: "held", Tran: heldTrans[i%len(heldTrans)], Sides: []string{"dial"},
+			Protos: []string{multiProtos[rnd.Intn(len(multiProtos))]}, Socks: k, Conns: k, Steps: 1 + rnd.Intn(2), Yield: rnd.Intn(2) == 0, RT: rts[(i/len(heldTrans))%2]}
+		cases = append(cases, mon.CaseSpec{Name: "endpoints/held/" + sp.Tran + "/dial/reconnect-time-0", Spec: sp})
+	}
+	cases = append(cases, idwrapCases(r, rnd)...) // pipe ids across the allocator's boundaries (c13_idwrap_test.go)
 	r.Run(cases, func(c *mon.Case) {
 		sp := c.Spec.(spec)
 		if sp.Yield {
@@ -129,6 +155,8 @@ func TestC13(t *testing.T) {
 			runWSHandler(c, sp)
 		case "closerace":
 			runCloseRace(c, sp)
+		case "idwrap":
+			runIDWrap(c, sp)
 		case "endpoints":
 			if sp.Peer == "held" {
 				runEndpointsHeld(c, sp)
@@ -464,6 +492,12 @@ func runVT(c *mon.Case, sp spec) {
 		s.SetPipeEventHook(m.hook(i))
 		s.SetOption(mangos.OptionReconnectTime, 3*time.Millisecond)
 		s.SetOption(mangos.OptionMaxReconnectTime, 3*time.Millisecond)
+		if sp.RT == "sock0" {
+			if err := s.SetOption(mangos.OptionReconnectTime, time.Duration(0)); err != nil {
+				c.Violate("life/reconnect-time-0-refused", "SetOption(RECONNECT-TIME, 0) on the socket: %v", err)
+				return
+			}
+		}
 		if sp.Protos[i] == "req" {
 			s.SetOption(mangos.OptionRetryTime, time.Hour)
 		}
@@ -580,7 +614,12 @@ func runVT(c *mon.Case, sp spec) {
 					}
 				} else if !dialed {
 					dialed = true
-					dc := mon.Go("Dial", func() (interface{}, error) { return nil, st.sock.Dial(vt.Addr(st.name)) })
+					dc := mon.Go("Dial", func() (interface{}, error) {
+						if sp.RT == "dialer0" {
+							return nil, st.sock.DialOptions(vt.Addr(st.name), map[string]interface{}{mangos.OptionReconnectTime: time.Duration(0)})
+						}
+						return nil, st.sock.Dial(vt.Addr(st.name))
+					})
 					if !c.AwaitOrViolate("life/dial-stuck", "Dial on vt (connects at once): "+where, dc.Done, opts) {
 						return
 					}
@@ -589,6 +628,9 @@ func runVT(c *mon.Case, sp spec) {
 				var rec *pipeRec
 				if !c.AwaitOrViolate("life/"+st.side+"-no-new-connection", "a new connection being announced (Attaching): "+where, func() bool { rec = recAt(step); return rec != nil }, opts) {
 					return
+				}
+				if st.side == "dial" && step > 0 && sp.RT != "" {
+					c.Count("redials_after_pipe_loss_with_reconnect_time_0", 1)
 				}
 				if st.side == "dial" {
 					ps := st.D.Pipes()
@@ -654,7 +696,7 @@ func runVT(c *mon.Case, sp spec) {
 	}
 	m.final(true)
 	c.Nontrivial()
-	c.Sig("vt|%v|%v|%v", sp.Protos, sp.Sides, trace)
+	c.Sig("vt|%v|%v|%v|%s", sp.Protos, sp.Sides, trace, sp.RT)
 }
 
 // runCloseRace: Socket.Close lands while a new connection is inside the protocol's AddPipe (the
@@ -725,6 +767,16 @@ func runReal(c *mon.Case, sp spec) {
 	cli.SetPipeEventHook(m.hook(1))
 	cli.SetOption(mangos.OptionReconnectTime, 4*time.Millisecond)
 	cli.SetOption(mangos.OptionMaxReconnectTime, 4*time.Millisecond)
+	var dialOpts map[string]interface{}
+	switch sp.RT {
+	case "sock0":
+		if err := cli.SetOption(mangos.OptionReconnectTime, time.Duration(0)); err != nil {
+			c.Violate("life/reconnect-time-0-refused", "SetOption(RECONNECT-TIME, 0) on the socket: %v", err)
+			return
+		}
+	case "dialer0":
+		dialOpts = map[string]interface{}{mangos.OptionReconnectTime: time.Duration(0)}
+	}
 	attachedOn := func(sock int) int {
 		m.mu.Lock()
 		defer m.mu.Unlock()
@@ -783,7 +835,7 @@ func runReal(c *mon.Case, sp spec) {
 		return nil
 	}
 	_, _, _ = attachedOn, seenOn, lastOn
-	if _, _, err := hx.Connect(srv, cli, sp.Tran); err != nil {
+	if err := connectWith(srv, cli, sp.Tran, dialOpts); err != nil {
 		c.Inconclusive("setup: connect over %s: %v", sp.Tran, err)
 		return
 	}
@@ -796,6 +848,9 @@ func runReal(c *mon.Case, sp spec) {
 		var rec *pipeRec
 		if !c.AwaitOrViolate("life/no-new-connection-after-rejection", "client redialling and the listener accepting again: "+where, func() bool { rec = recAt(0, step); return rec != nil }, opts) {
 			return
+		}
+		if step > 0 && sp.RT != "" {
+			c.Count("redials_after_pipe_loss_with_reconnect_time_0", 1)
 		}
 		get := func(f func(r *pipeRec) bool) func() bool {
 			return func() bool { m.mu.Lock(); defer m.mu.Unlock(); return f(rec) }
@@ -821,11 +876,47 @@ func runReal(c *mon.Case, sp spec) {
 	if c.Failed() {
 		return
 	}
+	if sp.RT != "" {
+		cli.Close() // first: with no reconnect interval the client would redial the closed listener in a tight loop
+	}
 	srv.Close()
 	cli.Close()
 	m.final(false)
 	c.Nontrivial()
-	c.Sig("real|%s|%s|%s", sp.Tran, sp.Protos[0], trace)
+	c.Sig("real|%s|%s|%s|%s", sp.Tran, sp.Protos[0], trace, sp.RT)
+}
+
+// connectWith is hx.Connect with extra options for the dialer (nil: exactly hx.Connect).
+func connectWith(srv, cli mangos.Socket, tr string, dialOpts map[string]interface{}) error {
+	if dialOpts == nil {
+		_, _, err := hx.Connect(srv, cli, tr)
+		return err
+	}
+	var lo map[string]interface{}
+	do := map[string]interface{}{}
+	for k, v := range dialOpts {
+		do[k] = v
+	}
+	if hx.NeedsTLS(tr) {
+		s, c := hx.TlsConfigs()
+		lo = map[string]interface{}{mangos.OptionTLSConfig: s}
+		do[mangos.OptionTLSConfig] = c
+	}
+	l, err := srv.NewListener(hx.ListenAddr(tr), lo)
+	if err != nil {
+		return fmt.Errorf("NewListener: %w", err)
+	}
+	if err := l.Listen(); err != nil {
+		return fmt.Errorf("Listen: %w", err)
+	}
+	d, err := cli.NewDialer(l.Address(), do)
+	if err != nil {
+		return fmt.Errorf("NewDialer(%s): %w", l.Address(), err)
+	}
+	if err := d.Dial(); err != nil {
+		return fmt.Errorf("Dial(%s): %w", l.Address(), err)
+	}
+	return nil
 }
 
 // ---------------------------------------------------------------------------
